@@ -363,19 +363,27 @@ theorem aw2_deserRawRows (f : Features) : AW 0 (deserRawRows f) := by
   · exact aw_bind0 hA (aw_tag _ (aw_zero (aw_readIntLength hA))) (fun cc => aw_bind0 hA
       (aw_optRead hA _ (aw_tag _ (aw_zero (aw_readBytes hA)))) (fun _ => aw_pure _))
 
-theorem aw2_metaFor (r : RawRows) (cached : Option ResultMeta) : AW 0 (metaFor r cached) := by
+theorem aw2_parsedMeta (r : RawRows) (p : MetaPresence) : AW 0 (parsedMeta r p) := by
   have hA : 1 ≤ 2 := by omega
+  unfold parsedMeta
+  exact aw_tag _ (aw_bind0 hA (aw_optRead hA _ (aw_tag _ (aw_zero (aw_readShortBytes hA)))) (fun _ =>
+    aw_bind0 hA (aw2_optTableSpec _) (fun gts => aw_bind0 hA (aw2_colSpecs gts _) (fun _ => aw_pure _))))
+
+/-- `slice_ref` after the metadata deserializer never panics: what the deserializer leaves is a suffix. -/
+theorem aw2_parsedMetaSliced (r : RawRows) (p : MetaPresence) : AW 0 (parsedMetaSliced r p) := by
+  have hA : 1 ≤ 2 := by omega
+  unfold parsedMetaSliced
+  have := aw_trackedBind (w2 := 0) hA (aw2_parsedMeta r p)
+    (f := fun sm => sliceRef sm.2 >>= fun _ => (pure sm.1 : M (MetaSource × ResultMeta)))
+    (fun sm h => by rw [h]; exact aw_bind0 hA aw_sliceRef_true (fun _ => aw_pure _))
+  simpa using this
+
+theorem aw2_metaFor (r : RawRows) (cached : Option ResultMeta) : AW 0 (metaFor r cached) := by
   unfold metaFor
   split
   · exact aw_pure _
   · exact aw_pure _
-  · have hm := aw_tag (w := 0) (A := 2) (B := U16 + U16) "meta"
-      (aw_bind0 hA (aw_optRead hA _ (aw_tag _ (aw_zero (aw_readShortBytes hA)))) (fun _ =>
-      aw_bind0 hA (aw2_optTableSpec r.globalSpec) (fun gts => aw_bind0 hA (aw2_colSpecs gts r.colCount)
-        (fun cols => aw_pure (MetaSource.parsed, (⟨_, r.colCount, cols⟩ : ResultMeta))))))
-    have := aw_trackedBind (w2 := 0) hA hm (f := fun sm => sliceRef sm.2 >>= fun _ => (pure sm.1 : M _))
-      (fun sm h => by rw [h]; exact aw_bind0 hA aw_sliceRef_true (fun _ => aw_pure _))
-    simpa using this
+  · exact aw2_parsedMetaSliced r _
 
 theorem aw2_deserMetadata (r : RawRows) (cached : Option ResultMeta) : AW 0 (deserMetadata r cached) := by
   have hA : 1 ≤ 2 := by omega
@@ -507,11 +515,25 @@ theorem aw2_deserEvent : AW 0 deserEvent := by
 theorem aw2_deserResult (f : Features) : AW 0 (deserResult f) := by
   have hA : 1 ≤ 2 := by omega
   unfold deserResult
-  refine aw_bind0 hA (aw_tag _ (aw_zero (aw_readInt hA))) (fun kind => ?_)
+  have hk : AW 0 (tag "result.kind" readInt) := aw_tag _ (aw_zero (aw_readInt hA))
+  have key : ∀ kt : Int × Bool, kt.2 = true → AW 0 (
+      if kt.1 = 1 then (pure ResultResp.void : M ResultResp)
+      else if kt.1 = 2 then do
+        sliceRef kt.2
+        let r ← deserRawRows f
+        pure (.rows r)
+      else if kt.1 = 3 then do let ks ← tag "setks" readString; pure (.setKeyspace ks)
+      else if kt.1 = 4 then do let p ← deserPrepared f; pure (.prepared p)
+      else if kt.1 = 5 then do let sc ← deserSchemaChange; pure (.schemaChange sc)
+      else fail "result.unknownkind") := ?_
+  · have := aw_trackedBind (w1 := 0) (w2 := 0) hA hk key
+    simpa using this
+  intro kt hkt
   split
   · exact aw_pure _
   · split
-    · exact aw_bind0 hA (aw2_deserRawRows f) (fun _ => aw_pure _)
+    · rw [hkt]
+      exact aw_bind0 hA aw_sliceRef_true (fun _ => aw_bind0 hA (aw2_deserRawRows f) (fun _ => aw_pure _))
     · split
       · exact aw_bind0 hA (aw_tag _ (aw_zero (aw_readString hA))) (fun _ => aw_pure _)
       · split
@@ -542,11 +564,37 @@ theorem aw2_deserResponse (f : Features) (op : Nat) : AW 0 (deserResponse f op) 
                 · exact aw_bind0 hA (aw_tag _ (aw_zero (aw_readBytesOpt hA))) (fun _ => aw_pure _)
                 · exact aw_fail _
 
+/-- `read_uuid` on a copy followed by `body.advance(16)`: the advance is guarded by the successful read. -/
+theorem aw_readTrace (hA : 1 ≤ A) : AllocW 0 A B readTrace := by
+  intro s
+  unfold readTrace
+  simp only [bind_def, onCopy, tag_def, readUuid, readRaw]
+  cases ht : takeN 16 "few" s with
+  | mk o s1 =>
+    cases o with
+    | err k =>
+      have : s1 = s := by
+        unfold takeN at ht
+        split at ht
+        · injection ht with _ h2; exact h2.symm
+        · simp at ht
+      subst this
+      simp only []; omega
+    | panic k =>
+      exfalso
+      unfold takeN at ht
+      split at ht <;> simp at ht
+    | ok raw =>
+      obtain ⟨hl, hlen, hb, ha, hd⟩ := takeN_length 16 "few" s raw s1 ht
+      have hn : ¬ (16 > s.buf.length) := by omega
+      simp only [hl, if_true, pure_def, advance, hn, if_false, List.length_drop, ha, hd]
+      exact ⟨by omega, by omega, by omega, List.drop_suffix _ _⟩
+
 theorem aw2_parseExt (flags : Nat) : AW 0 (parseExt flags) := by
   have hA : 1 ≤ 2 := by omega
   unfold parseExt
-  exact aw_bind0 hA (aw_optRead hA _ (aw_tag _ (aw_readUuid hA))) (fun _ => aw_bind0 hA
-    (aw_condRead _ _ (aw_tag _ aw2_readStringList)) (fun _ => aw_bind0 hA
-    (aw_optRead hA _ (aw_tag _ (aw_zero (aw_readBytesMap (A := 2) (B := U16) hA)))) (fun _ => aw_pure _)))
+  exact aw_bind0 hA (aw_optRead hA _ (aw_readTrace hA)) (fun _ => aw_bind0 hA
+    (aw_condRead _ _ (aw_readThenAdvance (aw_tag _ aw2_readStringList))) (fun _ => aw_bind0 hA
+    (aw_optRead hA _ (aw_readThenAdvance (aw_tag _ (aw_zero (aw_readBytesMap (A := 2) (B := U16) hA))))) (fun _ => aw_pure _)))
 
 end ScyllaVerif.C08
